@@ -143,6 +143,24 @@ def cross_format_probe():
         if accepted != must_accept:
             problems.append("Text field under allowed characters 48...57 (after other data formats were used in the same process): "
                             "cell %r is %s" % (text, "accepted" if accepted else "rejected"))
+    # ranges written with quoted characters, in several data formats of one process: lower-case letters, upper-case
+    # letters, both -- each format allows what IT declares
+    for declared, accepts in (("'a'...'z'", {"abc": True, "ABC": False, "aBc": False}), ("'A'...'Z'", {"abc": False, "ABC": True, "aBc": False}),
+                              ("'A'...'Z', 'a'...'z'", {"abc": True, "ABC": True, "aBc": True}), ('"a"..."z"', {"abc": True, "ABC": False}),
+                              ("'A'...'z'", {"aBc": True, "a1": False})):
+        letters = data.DataFormat("delimited")
+        letters.set_property("allowed_characters", declared)
+        letters.validate()
+        field = fields.TextFieldFormat("f", False, "", "", letters)
+        for text, must_accept in sorted(accepts.items()):
+            try:
+                field.validated(text)
+                accepted = True
+            except errors.FieldValueError:
+                accepted = False
+            if accepted != must_accept:
+                problems.append("Text field under allowed characters %s (after other data formats were used in the same process): "
+                                "cell %r is %s" % (declared, text, "accepted" if accepted else "rejected"))
     return problems
 
 
